@@ -245,7 +245,7 @@ Inductive case :=
 | History (accts scope_ids sspec_ids cspec_ids : list Z) (steps : list (op * obs))
 (** the complete key set of the metadata KV store after a history, with the bytes every interned id
     stands for; [g] = the history used no raw SetSession / SetRecord *)
-| Keys (g : bool) (scopes sess sspecs cspecs names accts denoms : list bytes) (ops : list op)
+| Keys (g sg : bool) (scopes sess sspecs cspecs names accts denoms : list bytes) (ops : list op)
        (keys : list bytes).
 
 (** sorting by a pair key *)
@@ -266,7 +266,7 @@ Fixpoint dedupz (l : list Z) : list Z :=   (* of a sorted list *)
 Definition setz (l : list Z) : list Z := dedupz (sortz l).
 
 Definition lz_eqb := list_eqb Z.eqb.
-Definition scope_eqb (x y : scope) := (sc_id x =? sc_id y) && (sc_spec x =? sc_spec y) && lz_eqb (sc_owners x) (sc_owners y) && lz_eqb (sc_da x) (sc_da y).
+Definition scope_eqb (x y : scope) := (sc_id x =? sc_id y) && (sc_spec x =? sc_spec y) && lz_eqb (sc_owners x) (sc_owners y) && lz_eqb (sc_da x) (sc_da y) && Bool.eqb (sc_rollup x) (sc_rollup y).
 Definition session_eqb (x y : session) := (se_scope x =? se_scope y) && (se_uuid x =? se_uuid y) && (se_spec x =? se_spec y).
 Definition record_eqb (x y : record) := (r_scope x =? r_scope y) && (r_name x =? r_name y) && (r_sess x =? r_sess y).
 Definition sspec_eqb (x y : sspec) := (ss_id x =? ss_id y) && lz_eqb (ss_owners x) (ss_owners y) && lz_eqb (ss_cspecs x) (ss_cspecs y).
@@ -377,6 +377,19 @@ Definition p_last_record (prev : obs) (o : op) (cur : obs) : bool :=
   | _ => true
   end.
 
+(** an accepted MsgDeleteContractSpecification leaves no record specification of it (nor the
+    contract specification, nor an entry of it in a lookup) *)
+Definition p_delete_cspec (cspec_ids : list Z) (o : op) (cur : obs) : bool :=
+  if negb (o_ok cur) then true else
+  match o with
+  | MDeleteCSpec id =>
+      negb (existsb (fun s => cs_id s =? id) (o_cspecs cur)) &&
+      forallb (fun r => negb (rs_cspec r =? id)) (o_rspecs cur) &&
+      match nth_list (index_of_z id cspec_ids) (l_rspec cur) with [] => true | _ => false end &&
+      forallb (fun l => negb (memz id l)) (l_ac cur)
+  | _ => true
+  end.
+
 (** each lookup lists exactly the entries whose stored content names the address / spec *)
 Definition p_indexes (accts sspec_ids cspec_ids : list Z) (o : obs) : list string :=
   tag (llz_eqb (l_as o)
@@ -462,6 +475,7 @@ Definition prop_step (accts scope_ids sspec_ids cspec_ids : list Z) (it : item) 
   tag (negb (i_guarded it) || p_refs cur) "prop:session_and_record_have_scope_and_session" ++
   tag (p_delete_scope scope_ids (i_prev it) (i_op it) cur) "prop:scope_delete_leaves_nothing" ++
   tag (p_last_record (i_prev it) (i_op it) cur) "prop:last_record_removes_session" ++
+  tag (p_delete_cspec cspec_ids (i_op it) cur) "prop:contract_spec_delete_leaves_nothing" ++
   p_indexes accts sspec_ids cspec_ids cur ++
   p_listings scope_ids cspec_ids cur ++
   (if i_sguarded it then p_spec_refs cur else []) ++
@@ -489,7 +503,7 @@ Definition lb_eqb := list_eqb list_N_eqb.
 Definition memb (k : bytes) (K : list bytes) : bool := existsb (list_N_eqb k) K.
 Definition len16 (l : list bytes) : bool := forallb (fun b => Nat.eqb (length b) 16) l.
 Definition last17 (k : bytes) : bytes := skipn (length k - 17) k.
-Definition check_keys (g : bool) (scopes sess sspecs cspecs names accts denoms : list bytes)
+Definition check_keys (g sg : bool) (scopes sess sspecs cspecs names accts denoms : list bytes)
     (ops : list op) (keys : list bytes) : list string :=
   let e := env_of scopes sess sspecs cspecs names accts denoms in
   tag (len16 scopes && len16 sess && len16 sspecs && len16 cspecs && len16 names) "corr:env_lengths" ++
@@ -505,7 +519,11 @@ Definition check_keys (g : bool) (scopes sess sspecs cspecs names accts denoms :
   tag (forallb (fun k => match k with
                          | 23%N :: _ | 17%N :: _ =>
                              memb (last17 k) keys && is_type TScope (last17 k)
-                         | _ => true end) keys) "prop:scope_lookup_key_names_stored_scope".
+                         | _ => true end) keys) "prop:scope_lookup_key_names_stored_scope" ++
+  (* the contract specification computed from a record specification key is a stored key *)
+  tag (negb sg || forallb (fun k => match k with
+                          | 5%N :: _ => match as_contract_spec_address k with Some p => memb p keys | None => false end
+                          | _ => true end) keys) "prop:record_spec_key_embeds_stored_contract_spec".
 
 Definition check (c : case) : list string :=
   match c with
@@ -547,8 +565,8 @@ Definition check (c : case) : list string :=
       first_failure
         (fun it => corr_step (i_model it) (i_cur it) ++ prop_step accts scope_ids sspec_ids cspec_ids it)
         0%N (items accts scope_ids sspec_ids cspec_ids init o0 true true steps)
-  | Keys g scopes sess sspecs cspecs names accts denoms ops keys =>
-      check_keys g scopes sess sspecs cspecs names accts denoms ops keys
+  | Keys g sg scopes sess sspecs cspecs names accts denoms ops keys =>
+      check_keys g sg scopes sess sspecs cspecs names accts denoms ops keys
   end.
 
 Definition check_all := check_list check.
